@@ -270,6 +270,11 @@ def elabTern (c : IExpr) (τc : ETy) (a : IExpr) (τa : ETy) (b : IExpr) (τb : 
       | .ok (some cb) => ternBuild c τc ca cb a b
 
 
+/-- `strip_param_type` (typer/src/typer/functions.rs): the type of a parameter in the function's signature is its declared
+    type without modifiers (`const float p` is a `float` parameter); array parameters are outside the model -/
+def stripParamType (t : Ty) : Ty := t.unmod
+
+/-- candidates of a call: the functions named `name`, in declaration order, with their `FunctionId` -/
 def candidates (Γ : Env) (name : Nat) : List Cand := candsFrom name Γ.funcs 0
 
 /-- `apply_casts` with the casts `find_overload_casts` recorded for the selected overload -/
